@@ -336,12 +336,24 @@ func ruleWireBounds(c *Ctx, scope []*ssa.Function) {
 						why = fmt.Sprintf("operand %s has no constant %s bound at this point: the wire-declared number is used in arithmetic before it is range-checked (the result can wrap around)", opnd.Name(), map[bool]string{true: "upper", false: "lower"}[hasLo])
 						break
 					}
-					if hi > intMax/4 || lo < -intMax/4 {
+					if hi > 1<<61 || lo < -(1<<61) {
 						okAll = false
-						why = fmt.Sprintf("operand %s is only bounded to [%d,%d], too wide to exclude overflow of %s on this target", opnd.Name(), lo, hi, x.Op)
+						why = fmt.Sprintf("operand %s is only bounded to [%d,%d], too wide to exclude overflow of %s", opnd.Name(), lo, hi, x.Op)
 						break
 					}
-					rlo, rhi = rlo+lo, rhi+hi
+					if x.Op == token.SUB && opnd == x.Y {
+						rlo, rhi = rlo-hi, rhi-lo
+					} else {
+						rlo, rhi = rlo+lo, rhi+hi
+					}
+				}
+				if okAll && (x.Op == token.ADD || x.Op == token.SUB) && (rhi > intMax || rlo < -intMax-1) {
+					okAll = false
+					why = fmt.Sprintf("the result range [%d,%d] of %s exceeds the int range of this target", rlo, rhi, x.Op)
+				}
+				if okAll && (x.Op == token.MUL || x.Op == token.SHL) {
+					okAll = false
+					why = "multiplication/shift of a wire-declared number: bound not computed"
 				}
 				if okAll {
 					c.ok(rid, key, c.P.instrPos(x), fmt.Sprintf("operands bounded; %s cannot overflow (sum of bounds within [%d,%d])", x.Op, rlo, rhi))
@@ -362,8 +374,8 @@ func ruleWireBounds(c *Ctx, scope []*ssa.Function) {
 					c.bad(rid, key, c.P.instrPos(x), "allocation sized by a wire-declared number with no constant upper bound dominating it (an absurd declared length panics in makeslice or exhausts memory)")
 				case !hasLo || lo < 0 || !cHasLo || clo < 0:
 					c.bad(rid, key, c.P.instrPos(x), "allocation sized by a wire-declared number that is not proven non-negative")
-				case hi > intMax/16 || chi > intMax/16:
-					c.bad(rid, key, c.P.instrPos(x), fmt.Sprintf("allocation bound %d is too large to exclude overflow of the byte size on this target", hi))
+				case hi > intMax/elemSize(c.P, x) || chi > intMax/elemSize(c.P, x):
+					c.bad(rid, key, c.P.instrPos(x), fmt.Sprintf("allocation bound %d elements of %d bytes overflows the byte size on this target", hi, elemSize(c.P, x)))
 				default:
 					c.ok(rid, key, c.P.instrPos(x), fmt.Sprintf("0 <= len <= %d", hi))
 				}
@@ -860,4 +872,25 @@ func ruleParserTermination(c *Ctx, scope []*ssa.Function) {
 		}
 	}
 	c.check(guarded, rid, "recursion/"+strings.Join(names, ">"), "", "a blocking one-byte read dominates the recursive descent: depth is bounded by input length", "the recursive cycle of the parser does not consume input before recursing: unbounded recursion on a finite input")
+}
+
+// elemSize: size in bytes of the element type of the slice made, under the target's sizes.
+func elemSize(p *Program, mk *ssa.MakeSlice) int64 {
+	st, ok := mk.Type().Underlying().(*types.Slice)
+	if !ok {
+		return 8
+	}
+	arch := p.GOARCH
+	if arch == "" {
+		arch = "amd64"
+	}
+	sz := types.SizesFor("gc", arch)
+	if sz == nil {
+		return 8
+	}
+	n := sz.Sizeof(st.Elem())
+	if n <= 0 {
+		return 1
+	}
+	return n
 }
